@@ -23,7 +23,7 @@ LEVEL_NOTE = ('partial: bookkeeping theorems over a hand model whose grid (shape
               'external analytic fact — unproven clause, measured on smooth apertures; the sample count follows float64 semantics of ceil(n*s) at the '
               'float seam (ASSUMPTIONS); segment coverage is oracle-only.')
 TECHNIQUE = 'Lean 4 proof (ordered-field algebra with Int.ceil) over a hand model + differential correspondence at exact rationals; measured interpolation clause'
-GEN = ['Effects', 'RescaleGrid']
+GEN = ['Effects', 'RescaleGrid', 'PlaneRescale']
 OPS = ['C17']
 RULE = ('cases: planes with smooth (super-Gaussian edge) amplitude and low-order polynomial OPD on grids 24..56 (even/odd, non-square), '
         'monolithic or 2..3 segment masks, float or integer mask dtype, uniform / per-axis (px, 1.5 px) / absent pixel scale, scalar '
